@@ -377,7 +377,51 @@ def corpus_cases() -> list[dict]:
     return out
 
 
+def check_pooled(chk, r, n):
+    """a weighted set obtained by POOLING batches (`Samples.concatenate`, the way draws from several runs are combined): its
+    log-weights, log-evidence (log of the mean weight over ALL its rows) and ESS are those of its own rows, whatever the sizes of the
+    batches were"""
+    from aspire.samples import Samples
+
+    for i in range(n):
+        nsn = NSS[i % 3]
+        w = "f64" if (i // 3) % 2 == 0 else "f32"
+        sizes = [(5, 40), (40, 5), (7, 7), (3, 11, 29), (1, 60)][i % 5]
+        xp = ns.get_xp(nsn)
+        dt = ns.native_dtype(nsn, w)
+        parts, ll_all, lp_all, lq_all = [], [], [], []
+        for k, m in enumerate(sizes):
+            ll = r.normal(-3 + k, 1.5, m); lp = r.normal(0, 1, m); lq = r.normal(0, 1, m)
+            if w == "f32":
+                ll, lp, lq = (v.astype(np.float32).astype(float) for v in (ll, lp, lq))
+            ll_all.append(ll); lp_all.append(lp); lq_all.append(lq)
+            parts.append(Samples(x=r.normal(0, 1, (m, 2)), log_likelihood=ll, log_prior=lp, log_q=lq, xp=xp, dtype=dt))
+        case = {"level": "pooled", "ns": nsn, "width": w, "batch_sizes": list(sizes)}
+        chk.count("pooled_sets:" + ("equal" if len(set(sizes)) == 1 else "unequal"))
+        chk.case(case if chk.evaluations < 45 else None, json.dumps([case, float(ll_all[0][0])]))
+        try:
+            pooled = Samples.concatenate(parts)
+        except Exception as e:   # noqa
+            chk.fail("total", case, repr(e)[:200], {"clause": "total", "level": "pooled"})
+            continue
+        lw = np.concatenate(ll_all) + np.concatenate(lp_all) - np.concatenate(lq_all)
+        m_ = float(np.max(lw))
+        ref_logz = m_ + math.log(float(np.mean(np.exp(lw - m_))))
+        ref_ess = float(np.sum(np.exp(lw - m_)) ** 2 / np.sum(np.exp(2 * (lw - m_))))
+        tol = 1e-4 if w == "f32" else 1e-10
+        got_lw = ns.to_np(pooled.log_w).astype(float)
+        if got_lw.shape != lw.shape or not np.allclose(got_lw, lw, rtol=tol, atol=tol * 10):
+            chk.fail("log-weight = log L + log pi - log q of the same sample", case, "pooled log-weights differ from the rows' own", {"clause": "logw", "level": "pooled"})
+        elif abs(float(pooled.log_evidence) - ref_logz) > tol * (1 + abs(ref_logz)) * 10:
+            chk.fail("log_evidence = log mean w", case,
+                     f"pooled set of batches {sizes}: log_evidence {float(pooled.log_evidence)!r}, log of the mean weight of its rows {ref_logz!r}",
+                     {"clause": "logZ", "level": "pooled"})
+        elif abs(float(pooled.effective_sample_size) - ref_ess) > 1e-3 * ref_ess + tol:
+            chk.fail("ess = (sum w)^2 / sum w^2", case, f"pooled ESS {float(pooled.effective_sample_size)!r} vs {ref_ess!r}", {"clause": "ess", "level": "pooled"})
+
+
 def run(chk: core.Check):
+    check_pooled(chk, np.random.default_rng(chk.seed + 20_202), 15 if chk.tier == "quick" else 150)
     n_cases = 540 if chk.tier == "quick" else 8100
     r = np.random.default_rng(chk.seed + 20_002)
     chk.rule = ("log-density triples generated per kind (moderate / extreme to 1e5 / spread over 7 decades / ties / "
